@@ -14,7 +14,7 @@ TRANSPARENT_DECL = {'std::clone::Clone::clone', 'std::convert::AsRef::as_ref', '
                     'std::borrow::ToOwned::to_owned', 'std::convert::Into::into', 'std::convert::From::from', 'std::ops::Try::branch',
                     'std::borrow::Borrow::borrow'}
 TRANSPARENT_NAME = {'std::boxed::Box::new', 'std::io::BufReader::new', 'std::option::Option::transpose', 'std::option::Option::as_deref',
-                    'std::option::Option::as_ref', 'std::option::Option::as_mut', 'std::path::PathBuf::as_path', 'std::rc::Rc::new',
+                    'std::option::Option::as_ref', 'std::option::Option::as_mut', 'std::path::PathBuf::as_path',
                     'std::option::Option::cloned', 'std::option::Option::copied', 'std::result::Result::transpose'}
 
 class Flow:
@@ -78,6 +78,8 @@ class Flow:
             return self.call_named(name, canon(g['fn']['def']), args, depth)
         return ('unknown', 'function value ' + pp(f)[:40])
     def call_named(self, name, decl, args, depth):
+        if decl == 'std::clone::Clone::clone' and ('BDDEnv' in name or 'HashMap' in name or 'RefCell' in name):
+            return ('call', 'deep-copy:' + name, tuple(args))        # copying a container is not the container itself
         if decl in TRANSPARENT_DECL or name in TRANSPARENT_NAME:
             return args[0] if args else ('unknown', 'no argument')
         if name in ('std::option::Option::unwrap', 'std::option::Option::expect', 'std::option::Option::unwrap_unchecked') and args:
